@@ -517,6 +517,10 @@ func compareStrings(left, right, operator string) (bool, error) {
 // Classic two-pointer backtracking algorithm: O(n*m) worst case, no exponential
 // blow-up on adversarial patterns.
 func matchLikePattern(text, pattern string) bool {
+	if !likeASCII(text) || !likeASCII(pattern) {
+		// "_" stands for one CHARACTER: compare by runes when a multi-byte character is involved
+		return likeRunes([]rune(text), []rune(pattern))
+	}
 	ti, pi := 0, 0
 	starIdx, matchIdx := -1, 0
 	for ti < len(text) {
@@ -954,4 +958,39 @@ func evaluateIsOperator(node *ExprNode, data map[string]any) (any, error) {
 	}
 
 	return nil, fmt.Errorf("unsupported IS operator: %s", operator)
+}
+
+func likeASCII(s string) bool {
+	for i := 0; i < len(s); i++ {
+		if s[i] >= 0x80 {
+			return false
+		}
+	}
+	return true
+}
+
+// likeRunes is the same two-pointer LIKE matcher over characters instead of bytes.
+func likeRunes(text, pattern []rune) bool {
+	ti, pi := 0, 0
+	starIdx, matchIdx := -1, 0
+	for ti < len(text) {
+		if pi < len(pattern) && pattern[pi] == '%' {
+			starIdx = pi
+			matchIdx = ti
+			pi++
+		} else if pi < len(pattern) && (pattern[pi] == '_' || pattern[pi] == text[ti]) {
+			ti++
+			pi++
+		} else if starIdx != -1 {
+			pi = starIdx + 1
+			matchIdx++
+			ti = matchIdx
+		} else {
+			return false
+		}
+	}
+	for pi < len(pattern) && pattern[pi] == '%' {
+		pi++
+	}
+	return pi == len(pattern)
 }
